@@ -73,6 +73,14 @@ def _cases(tier, seed):
                 cs.append({'scen': 'tt_getitem', 's': {'N': N, 'R': R, 'dtype': 'float64', 'index': [it], 'bare': True}})
         else:
             cs.append({'scen': 'tt_getitem', 's': {'N': N, 'R': R, 'dtype': 'float64', 'index': ['ell'], 'bare': True}})
+    # rank profiles that fall / rise next to integer-indexed modes (the fold direction of the removed singleton cores depends on the ranks)
+    for N, R in [([2, 3, 4], [1, 3, 2, 1]), ([2, 3, 2], [1, 2, 3, 1]), ([2, 2, 3, 2], [1, 2, 1, 2, 1]), ([3, 2, 2, 2], [1, 3, 2, 1, 1])]:
+        d = len(N)
+        for mask in itertools.product((0, 1), repeat=d):
+            if not any(mask) or (d == 4 and sum(mask) == 1 and not th):
+                continue
+            idx = [['symint', N[i]] if mask[i] else ['slice', None, None, None] for i in range(d)]
+            cs.append({'scen': 'tt_getitem', 's': {'N': N, 'R': R, 'dtype': 'float64', 'index': idx}})
     # None entries combined with a leading / trailing Ellipsis, singleton modes and integers under or next to the Ellipsis
     SL = ['slice', None, None, None]
     for N, R in [([3, 1, 2, 1], [1, 2, 2, 1, 1]), ([2, 3, 2], [1, 2, 2, 1]), ([1, 2], [1, 1, 1])]:
